@@ -40,7 +40,7 @@ func (c24) Describe() engine.Info {
 	return engine.Info{
 		Rule: "scenario = workload (test ROM from the repository / generated program / random video+audio scene with parked CPU / random bytes as code) x audio and video attached or not x random key schedule x 2..12 frames, preceded by a different 'disturber' workload run in the same process between the two in-process runs. " +
 			"Oracle: checkpoint digests every 4096 cycles and final state digest equal between run 1, run 2 (same process, after the disturber) and run 3 (fresh process, other GOMAXPROCS). Signature = (workload kind or ROM, audio, video, keys present)." +
-			" One scenario in eight stalls the host in real time inside a few cycles of the second and third run; workload irq: handlers identify themselves on the serial port while several requests are pending at once. Class triple-run-shape: cartridges of the largest shapes (8 MiB MBC5 ...), the guest's view of far-away ROM pages straight after construction is part of the trace; class consumer-pace: the real Run loop in a goroutine against an audio consumer taking bursts of 1 and of up to the queue capacity: both streams equal, left and right paired. Class consumer-pace also switches the sound unit off and on from the schedule and ends half of its runs by the display's close request.",
+			" One scenario in eight stalls the host in real time inside a few cycles of the second and third run; workload irq: handlers identify themselves on the serial port while several requests are pending at once. Class triple-run-shape: cartridges of the largest shapes (8 MiB MBC5 ...), the guest's view of far-away ROM pages straight after construction is part of the trace; class consumer-pace: the real Run loop in a goroutine against an audio consumer taking bursts of 1 and of up to the queue capacity: both streams equal, left and right paired. Class consumer-pace also switches the sound unit off and on from the schedule and ends half of its runs by the display's close request. One scenario in three constructs every instance from one file name with a constant modification time; one in sixteen lets the fresh process run a guest into an undefined opcode first.",
 		Assumptions:    []string{"a panic of the emulator ends a run; it must then occur at the same cycle in every run (whether it may occur at all is C11's business)"},
 		RequiredProbes: []string{"child_process_runs", "frames_compared", "samples_compared", "host_stalled_mid_frame", "samples_compared_across_consumer_paces"},
 		RealComponents: realComponents, StubComponents: stubComponents,
